@@ -96,7 +96,7 @@ PROPS = {
         "engines": [direct("C15", sq=4, st=8), storm("pause-chain", sq=4, st=4)],
         "rule": "direct engine, shard 0: breadth-first exploration of the region graph of the real PanicState transition functions (12 time deltas at the 30 min / 24 h boundaries x 3 operations) normalised by time translation; other shards: random walks with arbitrary deltas; every transition is judged online; distinct = normalised states. pause-chain engine (chain rig): the three real pause instructions executed as transactions in long random sequences (fee admin and strangers ordering pauses, admin and permissionless unpauses, propagations, clock steps at the 30 min / 24 h boundaries +-1 s); every accepted instruction is judged on the global pause state before/after (30/60 minute bounds, three per daily window, flags), every rejected unpause against 'never fails while a flag is set / once expired'",
         "assumptions": ["the direct rig mirrors the three pause handlers as calls on PanicState; the handlers themselves are executed by the pause-chain engine and their effect on user instructions by the C14 check"],
-        "floors": {"quick": {"C15.bfs_states": 1000, "C15.pause_accepted": 100000, "C15.permissionless_unpause": 10000, "C15.chain_accepted/PanicPause": 1500, "C15.chain_accepted/PanicUnpause": 400, "C15.chain_accepted/PanicUnpausePermissionless": 300}},
+        "floors": {"quick": {"C15.chain_user_instruction_refused_as_paused/Withdraw": 300, "C15.chain_user_probes_accepted": 5000, "C15.bfs_states": 1000, "C15.pause_accepted": 100000, "C15.permissionless_unpause": 10000, "C15.chain_accepted/PanicPause": 1500, "C15.chain_accepted/PanicUnpause": 400, "C15.chain_accepted/PanicUnpausePermissionless": 300}},
         "exhaustive_note": "exhaustive over the stated alphabet up to the depth bound reported in notes",
     },
     "C18": {
